@@ -11,7 +11,7 @@ use crate::{
         RecRecordData, StrChunk, Term, TypeAnnotation,
         record::{Field, FieldDeps, Include, RecordDeps},
     },
-    typ::{RecordRowF, RecordRows, RecordRowsF, Type, TypeF},
+    typ::{EnumRowF, EnumRows, EnumRowsF, RecordRowF, RecordRows, RecordRowsF, Type, TypeF},
 };
 
 use std::{collections::HashSet, rc::Rc};
@@ -116,8 +116,8 @@ impl CollectFreeVars for Type {
                 type_fields: ty, ..
             }
             | TypeF::Array(ty) => ty.as_mut().collect_free_vars(set),
-            // No term can appear anywhere in a enum row type, hence we can stop here.
-            TypeF::Enum(_) => (),
+            // Enum variants can carry an argument type, which might contain a contract.
+            TypeF::Enum(erows) => erows.collect_free_vars(set),
             TypeF::Record(rrows) => rrows.collect_free_vars(set),
             TypeF::Arrow(ty1, ty2) => {
                 ty1.as_mut().collect_free_vars(set);
@@ -137,6 +137,23 @@ impl CollectFreeVars for RecordRows {
                 tail,
             } => {
                 typ.collect_free_vars(set);
+                tail.collect_free_vars(set);
+            }
+        }
+    }
+}
+
+impl CollectFreeVars for EnumRows {
+    fn collect_free_vars(&mut self, set: &mut HashSet<Ident>) {
+        match &mut self.0 {
+            EnumRowsF::Empty | EnumRowsF::TailVar(_) => (),
+            EnumRowsF::Extend {
+                row: EnumRowF { typ, .. },
+                tail,
+            } => {
+                if let Some(typ) = typ {
+                    typ.collect_free_vars(set);
+                }
                 tail.collect_free_vars(set);
             }
         }
